@@ -14,7 +14,7 @@ func init() {
 	register(&Prop{
 		ID:    "C13",
 		Level: "fault_enumeration",
-		Rule:  "case = (statement template instance, generated store, batch size, drain mode); for each case the fault-free storage-call sequence is recorded and then ONE fault is injected at every position i of it, for every fault kind applicable to call i's operation (err for all; err-applied for writes; err-partial for batch writes), each in a fresh simulated store. distinct_nontrivial counts distinct (plan-node chain, drain mode, faulted operation, phase build/poll0/poll1/poll2+, fault kind) tuples in which the faulted call was actually reached.",
+		Rule:  "case = (statement template instance, generated store, batch size, drain mode); for each case the fault-free storage-call sequence is recorded and then ONE fault is injected at every position i of it, for every fault kind applicable to call i's operation (err for all; err-applied for writes; err-partial for batch writes), each in a fresh simulated store. distinct_nontrivial counts distinct (plan-node chain, drain mode, faulted operation, phase build/poll0/poll1/poll2+, fault kind) tuples in which the faulted call was actually reached. One index in 157 is a scale case: key lists and PUTs of hundreds to thousands of items, 70 KiB..6 MiB of payload, DELETEs and scans over 260..4200 pairs at batch sizes up to 4097; fault positions of such cases are sampled (see explanation_exhaustive).",
 		Assumptions: []string{
 			"storage contract of DESIGN.md §3.3 (snapshot cursors, Get->nil for missing keys)",
 			"the caller stops polling at the first error, as the README loop does; behaviour of further polls after an error is outside the property",
